@@ -53,7 +53,8 @@ def run(ck):
                "small capacities; non-trivial = at least two statements written; distinct by script")
     ck.assumptions = ["token scheduler: one logical thread runs between yield points (QUILL_VERIF hooks, interposed clock/sleep)",
                       "statement identity is carried in the message text and recovered from what the sink receives"]
-    import sysmodel
+    import sysmodel, ringcheck
+    ringcheck.run(ck, quick)
     sysmodel.run_for(ck, "C03")
     qks = ["BB:256:256", "BB:512:512", "UB:256:1024", "UB:128:4096"]
     n = 60 if quick else 1500
